@@ -1,11 +1,11 @@
 SPECIFICATION Spec
 CONSTANTS
-  Mode = "match"
+  Mode = "pipe"
   BsIds = {1, 2, 3}
-  MaxMeas = 3
+  MaxMeas = 4
   Deltas <- DeltasQuick
-  Diffs = {0, 1}
-  MinBs = {0, 1, 2}
+  Diffs = {1}
+  MinBs = {0, 2}
   MaxSamples = 0
   SampleSets <- NoSampleSets
   MaxOutliers = 0
